@@ -182,4 +182,6 @@ pub uninterp spec fn vx_idx(s: Seq<&WatchedPath>, x: WatchedPath) -> int;
 pub assume_specification<T: PartialEq> [<[T]>::contains] (s: &[T], x: &T) -> (r: bool)
     ensures r == s@.contains(*x);
 #[verifier::external_body]
-pub fn vx_unreachable() -> ! requires false { unimplemented!() }
+pub fn vx_unreachable() -> !
+    requires false, // OBL:C13.fs_worker.a_watcher_exists_whenever_paths_are_applied
+{ unimplemented!() }
